@@ -16,6 +16,7 @@ import numpy as np
 
 from vmon import core, contracts, cli
 
+ANCHORS = ['evo/main_config.py', 'evo/tools/settings.py', 'evo/tools/settings_template.py', 'evo/entry_points.py']
 LEVEL = "exploration"
 SHARDS = {"quick": 8, "thorough": 16}
 RULE = ("histories (length 1..10) over {set tokens, toggle, reset subset, reset all, hard merge, soft "
